@@ -108,6 +108,15 @@ var regexps = []*regexp.Regexp{
 	regexp.MustCompile(`^$`),
 	regexp.MustCompile(`(?i)^text/`),
 	regexp.MustCompile(`^application/octet-stream$`),
+	// expressions that EXCLUDE or REQUIRE parameters: which string the code hands to the
+	// expression (the whole header value, parameters included) decides the outcome
+	regexp.MustCompile(`^text/plain$`),
+	regexp.MustCompile(`^application/json$`),
+	regexp.MustCompile(`^text/(plain|html)(; charset=.*)?$`),
+	regexp.MustCompile(`^.*; *charset=utf-8$`),
+	regexp.MustCompile(`charset`),
+	regexp.MustCompile(`^[^;]*$`),
+	regexp.MustCompile(`^[a-z/]+ $`),
 }
 
 var aeVariants = [][]string{
@@ -133,6 +142,10 @@ var contentTypes = []string{
 	"text/html", "text/html; charset=utf-8", "text/plain", "application/json", "application/javascript",
 	"image/png", "application/octet-stream", "TEXT/HTML", "application/vnd.api+json", "", "text/event-stream",
 	"font/woff2", "application/gzip", "application/xml;charset=UTF-8",
+	// parameters, odd spacing and case
+	"text/plain; charset=utf-8", "text/plain;charset=UTF-8", "text/plain ; q", "text/plain ", " text/plain", "TEXT/PLAIN",
+	"text/plain; format=flowed", "application/json;profile=stream", "application/json; charset=utf-8", "text/html;charset=utf-8",
+	"text/html; charset=ISO-8859-1", ";", "text/plain;", "charset",
 }
 
 var encodings = []string{"", "gzip", "br", "identity", "deflate", "GZIP"}
@@ -759,6 +772,36 @@ func main() {
 				}
 				do(s)
 			}
+		}
+	}
+
+	// 2b. every expression x every content type (with and without parameters, odd spacing and case),
+	//     single and multiple Content-Type values: the verdict in the case is the real expression on
+	//     the WHOLE header value, so "which string is matched" is part of the correspondence
+	for _, re := range regexps {
+		for ci, ct := range contentTypes {
+			s := &script{Class: "matrix-content-type", Re: re, AE: []string{"gzip"}, H0: map[string][]string{}}
+			body := makeBody(r, 0, 20+r.Intn(80))
+			switch (ci + r.Intn(2)) % 6 {
+			case 0: // two values: only the first one counts
+				s.Ops = append(s.Ops, hop{Kind: "add", Key: "Content-Type", Val: ct}, hop{Kind: "add", Key: "Content-Type", Val: contentTypes[r.Intn(len(contentTypes))]})
+			case 1:
+				s.Ops = append(s.Ops, hop{Kind: "add", Key: "Content-Type", Val: contentTypes[r.Intn(len(contentTypes))]}, hop{Kind: "add", Key: "content-type", Val: ct})
+			case 2: // already on the writer
+				s.H0["Content-Type"] = []string{ct}
+			default:
+				s.Ops = append(s.Ops, hop{Kind: "set", Key: casing(r, "Content-Type"), Val: ct})
+			}
+			if r.Intn(2) == 0 {
+				s.Ops = append(s.Ops, hop{Kind: "set", Key: "Content-Length", Val: strconv.Itoa(len(body))})
+			}
+			if r.Intn(2) == 0 {
+				s.Ops = append(s.Ops, hop{Kind: "wh", Code: codes[r.Intn(len(codes))]})
+			}
+			for _, c := range chunks(r, body) {
+				s.Ops = append(s.Ops, hop{Kind: "write", Data: c})
+			}
+			do(s)
 		}
 	}
 
